@@ -395,11 +395,12 @@ pub fn literal() -> BoxedStrategy<RVal> {
             3 => (gv::finite_f64(), gv::unit_ids()).prop_map(|(f, u)| RVal::Num(f.to_bits(), Some(u))),
             2 => ((-5i32..5), prop::sample::select(vec![vec!["meter".to_string(), "m".to_string()], vec!["second".to_string(), "sec".to_string(), "s".to_string()]])).prop_map(|(i, u)| RVal::Num((i as f64).to_bits(), Some(u))),
         ],
-        3 => gv::ustring(8).prop_map(RVal::Str),
+        // now and then a long literal (127..12 289 bytes, with escapes and multi-byte characters at every offset)
+        3 => prop_oneof![40 => gv::ustring(8), 1 => gv::long_text()].prop_map(RVal::Str),
         2 => prop::sample::select(vec!["x", "y", "", "abc"]).prop_map(|s| RVal::Str(s.to_string())),
         2 => gv::uri_string(8).prop_map(RVal::Uri),
         2 => gv::ref_id().prop_map(|i| RVal::Ref(i, None)),
-        1 => (gv::ref_id(), gv::ustring(6)).prop_map(|(i, d)| RVal::Ref(i, Some(d))),
+        1 => (gv::ref_id(), prop_oneof![20 => gv::ustring(6), 1 => gv::long_text()]).prop_map(|(i, d)| RVal::Ref(i, Some(d))),
         2 => gv::symbol_name().prop_map(RVal::Symbol),
         2 => gv::date(cfg),
         2 => gv::time(),
